@@ -67,6 +67,15 @@ class NoSidecarVFS:
     def stat(self, *a, **k):
         raise OSError(2, "No such file or directory")
 
+    def isfile(self, *a, **k):
+        return False
+
+    def isdir(self, *a, **k):
+        return False
+
+    def exists(self, *a, **k):
+        return False
+
 
 def register(OPS, drv):
     def setup(job):
